@@ -9464,10 +9464,33 @@ let rec brackets_v s stack =
                  else VRInvalid (Some (msg_unclosed o)))
          else brackets_v t stack
 
+(** val script_validate_req : str -> vresult **)
+
+let script_validate_req line = match line with
+| [] ->
+  VRInvalid (Some ((Npos (XO (XO (XO (XO (XO XH)))))) :: ((Npos (XO (XO (XI
+    (XI (XI XH)))))) :: ((Npos (XI (XO (XI (XI (XO XH)))))) :: ((Npos (XI (XO
+    (XI (XI (XO XH)))))) :: ((Npos (XO (XO (XO (XO (XO XH)))))) :: ((Npos (XO
+    (XI (XO (XO (XI (XI XH))))))) :: ((Npos (XI (XO (XI (XO (XO (XI
+    XH))))))) :: ((Npos (XI (XO (XO (XO (XI (XI XH))))))) :: ((Npos (XI (XO
+    (XI (XO (XI (XI XH))))))) :: ((Npos (XI (XO (XO (XI (XO (XI
+    XH))))))) :: ((Npos (XO (XI (XO (XO (XI (XI XH))))))) :: ((Npos (XI (XO
+    (XI (XO (XO (XI XH))))))) :: ((Npos (XO (XO (XI (XO (XO (XI
+    XH))))))) :: []))))))))))))))
+| _ :: _ -> script_validate line
+
+(** val script_validate_inc : str -> vresult **)
+
+let script_validate_inc line = match line with
+| [] -> VRIncomplete
+| _ :: _ -> script_validate line
+
 type vkind =
 | VKNone
 | VKBrackets
 | VKScript
+| VKScriptReq
+| VKScriptInc
 
 (** val mk_config :
     edit_mode -> completion_type -> bool -> nat -> bool -> str list -> str
@@ -9483,11 +9506,13 @@ let mk_config mode ct timeout_none cols0 has_helper cands hints vk bindings =
     (match vk with
      | VKNone -> (fun _ -> VRValid None)
      | VKBrackets -> (fun l -> brackets_v l [])
-     | VKScript -> script_validate); c_bindings = bindings; c_veof = ((KChar
-    (Npos (XO (XO (XI (XO (XO (XO XH)))))))), m_CTRL); c_vintr = ((KChar
-    (Npos (XI (XI (XO (XO (XO (XO XH)))))))), m_CTRL); c_vquit = ((KChar
-    (Npos (XO (XO (XI (XI (XI (XO XH)))))))), m_CTRL); c_vsusp = ((KChar
-    (Npos (XO (XI (XO (XI (XI (XO XH)))))))), m_CTRL) }
+     | VKScript -> script_validate
+     | VKScriptReq -> script_validate_req
+     | VKScriptInc -> script_validate_inc); c_bindings = bindings; c_veof =
+    ((KChar (Npos (XO (XO (XI (XO (XO (XO XH)))))))), m_CTRL); c_vintr =
+    ((KChar (Npos (XI (XI (XO (XO (XO (XO XH)))))))), m_CTRL); c_vquit =
+    ((KChar (Npos (XO (XO (XI (XI (XI (XO XH)))))))), m_CTRL); c_vsusp =
+    ((KChar (Npos (XO (XI (XO (XI (XI (XO XH)))))))), m_CTRL) }
 
 type read_result = { rr_outcome : outcome; rr_obs : observation list;
                      rr_out : n list list }
